@@ -119,6 +119,9 @@ def run_c20(tier, tree, record):
     from checks import c20_hops
     code, ev = driver.check_property("C20", tier=tier, tree=tree, record=record, level="other", design_ref="5/C20")
     r = c20_hops.run(tree, tier)
+    if r.get("reference_mismatch"):
+        print("CHECKER-FAILURE: C20 the two independent reference computations of W disagree")
+        return 3
     known = driver.load_known("C20")
     rdir = os.path.join(driver.VERIF, "replays")
     os.makedirs(rdir, exist_ok=True)
@@ -144,7 +147,9 @@ def run_c20(tier, tree, record):
         ev["coverage"].update({
             "evaluations": r["evaluations"], "distinct_nontrivial": r["distinct_nontrivial"], "exhaustive": True,
             "rule": f"every symmetric self-connected 0/1 topology on 3..{r['nmax']} subnets x every non-empty set of <= 3 "
-                    "reachable sensitive subnets; non-trivial = more than one sensitive subnet or W != Steiner",
+                    "reachable sensitive subnets; non-trivial = more than one sensitive subnet or W != Steiner; plus "
+                    f"{r['structured_instances']} structured larger instances (chains, stars, rings, seeded random connected "
+                    f"graphs) with up to {r['max_sensitive_subnets']} sensitive subnets, W by Held-Karp DP",
             "bounded_hops": {"clause_i_failures": len(r["viol_i"]), "clause_ii_failures_known_class": len(r["viol_ii_known"]),
                              "nmax": r["nmax"], "wall_s": round(r["wall"], 2)}})
         ev["coverage"]["samples"] = (ev["coverage"].get("samples") or []) + r["samples"]
